@@ -300,15 +300,60 @@ func intBinop(op token.Token, x, y value) value {
 			if k, ok := isPow2Minus1(c.Val); ok && iv(other).lo != nil && iv(other).lo.Sign() >= 0 {
 				return ti(IntBin("mod", other, ConstInt(new(big.Int).Lsh(bi(1), uint(k)))))
 			}
-		}
-	case token.XOR:
-		if kx == types.Uint8 && b.IsConst() {
-			switch b.Val.Int64() {
-			case 0xff:
-				return ti(IntBin("-", ConstInt(bi(255)), a))
-			case 0x80:
-				return ti(Ite(IntCmp("<", a, ConstInt(bi(128))), IntBin("+", a, ConstInt(bi(128))), IntBin("-", a, ConstInt(bi(128)))))
+			if c.Val.Sign() >= 0 && iv(other).lo != nil && iv(other).lo.Sign() >= 0 && c.Val.BitLen() <= 64 {
+				r := ConstInt(bi(0))
+				for k := 0; k < c.Val.BitLen(); k++ {
+					if c.Val.Bit(k) == 1 {
+						p := ConstInt(new(big.Int).Lsh(bi(1), uint(k)))
+						r = IntBin("+", r, IntBin("*", p, IntBin("mod", IntBin("div", other, p), ConstInt(bi(2)))))
+					}
+				}
+				return ti(r)
 			}
+		}
+	case token.XOR, token.OR, token.AND_NOT:
+		c, other := b, a
+		if a.IsConst() && op != token.AND_NOT {
+			c, other = a, b
+		}
+		io := iv(other)
+		if op == token.XOR && c.IsConst() && !signed {
+			_, khi := kindRange(kx)
+			if c.Val.Cmp(khi) == 0 { // ^ all-ones
+				return ti(IntBin("-", ConstInt(khi), other))
+			}
+			if kx == types.Uint8 && c.Val.Int64() == 0x80 {
+				return ti(Ite(IntCmp("<", other, ConstInt(bi(128))), IntBin("+", other, ConstInt(bi(128))), IntBin("-", other, ConstInt(bi(128)))))
+			}
+		}
+		if c.IsConst() && c.Val.Sign() == 0 && op != token.AND_NOT {
+			return ti(other)
+		}
+		if c.IsConst() && c.Val.Sign() >= 0 && io.lo != nil && io.lo.Sign() >= 0 && c.Val.BitLen() <= 64 {
+			// bitwise op with a non-negative constant on a non-negative operand:
+			// result = other + sum over set bits k of c of delta_k*2^k, with bit_k = (other div 2^k) mod 2
+			r := other
+			for k := 0; k < c.Val.BitLen(); k++ {
+				if c.Val.Bit(k) == 0 {
+					continue
+				}
+				p := ConstInt(new(big.Int).Lsh(bi(1), uint(k)))
+				var bit *Term
+				if io.hi.Cmp(new(big.Int).Lsh(bi(1), uint(k))) < 0 {
+					bit = ConstInt(bi(0))
+				} else {
+					bit = IntBin("mod", IntBin("div", other, p), ConstInt(bi(2)))
+				}
+				switch op {
+				case token.XOR: // bit 0 -> +2^k, bit 1 -> -2^k
+					r = IntBin("+", r, IntBin("*", p, IntBin("-", ConstInt(bi(1)), IntBin("*", ConstInt(bi(2)), bit))))
+				case token.OR: // bit 0 -> +2^k
+					r = IntBin("+", r, IntBin("*", p, IntBin("-", ConstInt(bi(1)), bit)))
+				case token.AND_NOT: // bit 1 -> -2^k
+					r = IntBin("-", r, IntBin("*", p, bit))
+				}
+			}
+			return ti(r)
 		}
 	}
 	panic(unsupported(fmt.Sprintf("int mode: binop %s", op)))
